@@ -155,11 +155,18 @@ def json_required(fmt, doc):
 
 def load_outcome(fmt, text, path=None, kind=None):
     """-> {'load': 'rejected:<Exc>' | 'ok', ...}; after a successful load: can it be written, what sits at `path` now?"""
+    import io
     obj = new_obj(fmt)
     r = call(obj.loads, text)
+    via = "loads"
     if r[0] != "ok":
-        return {"load": "rejected", "exception": r[1]}
-    out = {"load": "ok"}
+        # the other entry point: load() of an open file (load() and loads() do not share their validation step)
+        obj = new_obj(fmt)
+        r2 = call(obj.load, io.StringIO(text))
+        if r2[0] != "ok":
+            return {"load": "rejected", "exception": r[1]}
+        via = "load(file object) - loads() rejects the same text"
+    out = {"load": "ok", "accepted_by": via}
     w = call(TI.dumps, obj) if fmt == "treeinfo" else call(obj.dumps)
     out["rewritable"] = w[0] == "ok"
     if w[0] == "ok" and path is not None and fmt not in ("treeinfo", "discinfo"):
@@ -362,8 +369,9 @@ def _judge_value(base, label, path, kind, value, o, acc, ver=None):
         acc.outcome("value:coerced-in-domain")
         return
     acc.violation("loaded%s:%s" % ("" if ver is None else "-" + ver, kind or label.split(".")[-1]), case, o,
-                  "%s%s with %s = %r was loaded successfully (now: %r, writable: %s)"
-                  % (base, "" if ver is None else " as a format %s document" % ver, label, value, o.get("value_now"), o.get("rewritable")))
+                  "%s%s with %s = %r was loaded successfully by %s (now: %r, writable: %s)"
+                  % (base, "" if ver is None else " as a format %s document" % ver, label, value, o.get("accepted_by"), o.get("value_now"),
+                     o.get("rewritable")))
 
 
 DEGENERATE = {"json": ["{}", "[]", "null", "0", "false", '""', '{"header": {}}', '{"payload": {}}', '{"header": null, "payload": null}'],
